@@ -505,7 +505,7 @@ mod archives {
     const META: usize = 32;           // RrdpObjectMeta::SIZE
     const FILE_HDR: usize = 30;       // magic (6) + hash key (16) + bucket count (8)
     /// The worker refuses single allocations above this (recorded first); far above the oracle's bound.
-    const ALLOC_CAP: usize = 512 << 20;
+    const ALLOC_CAP: usize = 64 << 20;
     /// `objects()` of a file of a few KiB that yields this many items does not end.
     const ITER_CAP: u64 = 200_000;
     const ABSENT: &str = "rsync://example.net/repo/ca/never-published.roa";
@@ -636,19 +636,21 @@ mod archives {
     fn put64(d: &mut [u8], at: usize, v: u64) { d[at..at + 8].copy_from_slice(&v.to_ne_bytes()); }
 
     /// The 8-byte fields of the file: (site, offset, offset at which the bytes the field measures begin).
-    fn fields(base: &Base, all_index: bool) -> Vec<(String, usize, usize)> {
+    fn fields(base: &Base, all_index: bool, all_headers: bool) -> Vec<(String, usize, usize)> {
         let b = &base.bytes;
         let mut v = vec![("bucket_count".to_string(), 22, FILE_HDR)];
-        let mut zero = 0;
+        let (mut zero, mut nonzero) = (0, 0);
         for i in 0..=base.nb {
             let at = FILE_HDR + 8 * i;
             let used = rd64(b, at) != 0;
-            if !used { zero += 1; }
-            if all_index || used || i == base.nb || zero <= 3 {
+            if !used { zero += 1; } else { nonzero += 1; }
+            if all_index || (used && nonzero <= 4) || i == base.nb || (!used && zero <= 3) {
                 v.push((if i == base.nb { "index.empty".to_string() } else { "index".to_string() }, at, at + 8));
             }
         }
-        for &(s, _, _) in &base.headers {
+        for (k, &(s, _, _)) in base.headers.iter().enumerate() {
+            // in the sampled file: the first blocks, one free block and the last block
+            if !all_headers && !(k < 3 || k + 1 == base.headers.len() || base.headers[..k].iter().all(|h| !h.2) && base.headers[k].2) { continue }
             let name_len = rd64(b, s + 17) as usize;
             v.push(("size".into(), s, s));
             v.push(("next".into(), s + 8, s));
@@ -662,7 +664,9 @@ mod archives {
         let b = &base.bytes;
         let len = b.len();
         let idx_end = FILE_HDR + 8 * (base.nb + 1);
-        let used_index: Vec<usize> = (0..=base.nb).map(|i| FILE_HDR + 8 * i).filter(|&at| rd64(b, at) != 0).collect();
+        let mut used_index: Vec<usize> = (0..=base.nb).map(|i| FILE_HDR + 8 * i).filter(|&at| rd64(b, at) != 0).collect();
+        // in the sampled file: the first entries in use and the free-list entry
+        if !full && !thorough && used_index.len() > 5 { let last = used_index.pop().unwrap(); used_index.truncate(4); used_index.push(last); }
         cases.push(acase("valid", base, b));
         { let mut d = b.clone(); d.extend(gen_bytes(rng, 7)); cases.push(acase("valid.trailing", base, &d)); }
 
@@ -671,10 +675,11 @@ mod archives {
         let mut cuts = std::collections::BTreeSet::new();
         for c in 0..=(idx_end + 2).min(len) {
             let near_used = used_index.iter().any(|&at| c + 1 >= at && c <= at + 9);
-            if full || c <= FILE_HDR + 10 || near_used || c + 10 >= idx_end || rng.chance(1, 64) { cuts.insert(c); }
+            if full || c <= FILE_HDR + 10 || near_used || c + 10 >= idx_end || rng.chance(1, if thorough { 16 } else { 128 }) { cuts.insert(c); }
         }
-        for &(s, _, _) in &base.headers {
-            for c in s.saturating_sub(2)..=(s + HDR + 2).min(len) { cuts.insert(c); }
+        for (k, &(s, _, _)) in base.headers.iter().enumerate() {
+            if full || thorough || k < 2 { for c in s.saturating_sub(2)..=(s + HDR + 2).min(len) { cuts.insert(c); } }
+            else { for c in [s - 1, s, s + 1, s + 8, s + 16, s + 17, s + 25, s + 32, s + HDR] { cuts.insert(c); } }
             let name_len = rd64(b, s + 17) as usize;
             for c in [s + HDR + name_len, s + HDR + name_len + 1, s + HDR + name_len + META, s + HDR + name_len + META + 1] { if c < len { cuts.insert(c); } }
         }
@@ -690,10 +695,10 @@ mod archives {
             if full || p < FILE_HDR || in_used || (thorough && rng.chance(1, 40)) { positions.insert(p); }
         }
         for (k, &(s, _, _)) in base.headers.iter().enumerate() {
-            for p in s..s + HDR { if full || thorough || k < 2 || p >= s + 16 { positions.insert(p); } }
+            for p in s..s + HDR { if full || thorough || k < 2 { positions.insert(p); } }
             if full { for p in [s + HDR, s + HDR + 1] { if p < len { positions.insert(p); } } }
         }
-        if full { for _ in 0..(if thorough { 200 } else { 40 }) { positions.insert(rng.below(len as u64) as usize); } }
+        if full { for _ in 0..(if thorough { 200 } else { 25 }) { positions.insert(rng.below(len as u64) as usize); } }
         for p in positions {
             let orig = b[p];
             let mut alts = vec![orig ^ 1, orig ^ 0x80, 0xFF, 0x00];
@@ -711,10 +716,11 @@ mod archives {
 
         // 8-byte fields overwritten: extremes, values around the file length, around what is left behind the
         // field's payload start, and lengths that make start + len wrap around to a small end
-        for (site, at, payload) in fields(base, full) {
+        let mut cycles = 0;
+        for (site, at, payload) in fields(base, full, full || thorough) {
             let left = (len - payload) as u64;
             let mut vals: Vec<u64> = vec![0, 1, 1 << 31, 1 << 32, (1 << 63) - 1, 1 << 63, u64::MAX - 1, u64::MAX,
-                len as u64 - 2, len as u64 - 1, len as u64, len as u64 + 1, len as u64 + 2,
+                len as u64 - 1, len as u64, len as u64 + 1,
                 left.wrapping_sub(1), left, left + 1,
                 0u64.wrapping_sub(payload as u64), 0u64.wrapping_sub(payload as u64) + 16, 0u64.wrapping_sub(payload as u64).wrapping_sub(1)];
             if !full && !thorough { vals.retain(|v| *v < 2 || *v >= (1 << 31)); }
@@ -725,11 +731,19 @@ mod archives {
                 let mut d = b.clone(); put64(&mut d, at, v);
                 cases.push(acase(&format!("field.{}", site), base, &d));
             }
-            // pointers: to the block itself (cycle), to the first block, into the middle of a block
-            if site == "next" || site.starts_with("index") {
+            // pointers: to the block itself (a cycle; every such case costs the watchdog's patience, so only a
+            // few in the quick tier), to the first block, into the middle of a block, to the last block
+            if full && (site == "next" || site.starts_with("index")) {
                 let first = base.headers[0].0 as u64;
-                let me = if site == "next" { (at - 8) as u64 } else { base.headers[base.headers.len() / 2].0 as u64 };
-                for v in [me, first, first + 40, base.headers.last().unwrap().0 as u64] {
+                let mut targets = vec![first + 40];
+                if site == "next" {
+                    cycles += 1;
+                    if thorough || cycles <= 5 { targets.push((at - 8) as u64); }
+                    if thorough || cycles % 4 == 0 { targets.push(first); targets.push(base.headers.last().unwrap().0 as u64); }
+                } else {
+                    targets.push(first); targets.push(base.headers[base.headers.len() / 2].0 as u64);
+                }
+                for v in targets {
                     if v == orig { continue }
                     let mut d = b.clone(); put64(&mut d, at, v);
                     cases.push(acase(&format!("pointer.{}", site), base, &d));
@@ -767,6 +781,19 @@ mod archives {
                 let b = make_base(&format!("nb{}", nb), nb, 2 + i as u64, 3000 + 700 * i);
                 mutations(&mut cases, &mut rng.fork(), &b, true, false);
             }
+        }
+        // files that end with the header or with the index, for the extreme bucket counts
+        for nb in [0u64, 1, 2, 3, 1 << 31, 1 << 32, (1 << 61) - 1, 1 << 61, 1 << 62, (1 << 63) - 1, 1 << 63, u64::MAX - 1, u64::MAX] {
+            let mut d = small.bytes[..FILE_HDR].to_vec();
+            put64(&mut d, 22, nb);
+            cases.push(acase("tiny.header_only", &small, &d));
+            d.extend_from_slice(&[0u8; 8]);
+            cases.push(acase("tiny.header_one_bucket", &small, &d));
+            let mut d = small.bytes[..FILE_HDR + 8 * (small.nb + 1)].to_vec();
+            put64(&mut d, 22, nb);
+            cases.push(acase("tiny.header_index", &small, &d));
+            for x in &mut d[FILE_HDR..] { *x = 0 }
+            cases.push(acase("tiny.header_empty_index", &small, &d));
         }
         // arbitrary byte strings: empty, random, random behind the valid magic, behind a valid header, behind a valid
         // header and index
@@ -914,29 +941,44 @@ mod archives {
         AWorker { child, stdin, rx }
     }
 
+    /// CPU time (user + system) the process has used so far, from /proc/<pid>/stat.
+    fn cpu_seconds(pid: u32) -> Option<f64> {
+        let s = std::fs::read_to_string(format!("/proc/{}/stat", pid)).ok()?;
+        let rest = &s[s.rfind(')')? + 1..];
+        let f: Vec<&str> = rest.split_whitespace().collect();
+        Some((f.get(11)?.parse::<u64>().ok()? + f.get(12)?.parse::<u64>().ok()?) as f64 / 100.0)
+    }
+
     pub fn run_case(input: &Value) -> CaseOut {
         let names: Vec<String> = input["names"].as_array().unwrap().iter().map(|s| s.as_str().unwrap().to_string()).collect();
         let data = unrle(&input["bytes"]);
         let ops = ops_for(&names);
-        let secs = std::env::var("C27_CASE_TIMEOUT").ok().and_then(|s| s.parse().ok()).unwrap_or(90);
+        // A case needs milliseconds of CPU time.  The worker is declared hanging when it has burnt C27_CASE_CPU
+        // seconds of CPU time on one case (independent of the load of the machine), or after C27_CASE_TIMEOUT
+        // seconds of wall-clock time.
+        let cpu_limit: f64 = std::env::var("C27_CASE_CPU").ok().and_then(|s| s.parse().ok()).unwrap_or(2.0);
+        let secs = std::env::var("C27_CASE_TIMEOUT").ok().and_then(|s| s.parse().ok()).unwrap_or(180);
         let deadline = Instant::now() + Duration::from_secs(secs);
         let mut guard = AWORKER.lock().unwrap();
         if guard.is_none() { *guard = Some(spawn()); }
         let w = guard.as_mut().unwrap();
+        let cpu0 = cpu_seconds(w.child.id());
         let sent = writeln!(w.stdin, "{}", json!({"names": names, "bytes": input["bytes"]})).and_then(|_| w.stdin.flush()).is_ok();
         let mut answers: Vec<Value> = Vec::new();
         let mut end: Option<Value> = None;
-        let mut how = "";
+        let mut how = if sent { "" } else { "died" };
         while sent {
             let now = Instant::now();
             if now >= deadline { how = "timeout"; break }
-            match w.rx.recv_timeout(deadline - now) {
+            match w.rx.recv_timeout((deadline - now).min(Duration::from_millis(100))) {
                 Ok(l) => {
                     let v: Value = serde_json::from_str(&l).expect("worker answer");
                     if v["end"] == true { end = Some(v); break }
                     answers.push(v);
                 }
-                Err(RecvTimeoutError::Timeout) => { how = "timeout"; break }
+                Err(RecvTimeoutError::Timeout) => {
+                    if let (Some(a), Some(b)) = (cpu0, cpu_seconds(w.child.id())) { if b - a > cpu_limit { how = "timeout"; break } }
+                }
                 Err(RecvTimeoutError::Disconnected) => { how = "died"; break }
             }
         }
@@ -948,8 +990,8 @@ mod archives {
             let status = w.child.wait().map(|s| s.to_string()).unwrap_or_else(|e| e.to_string());
             let mut err = String::new();
             if let Some(mut e) = w.child.stderr.take() { let _ = e.read_to_string(&mut err); }
-            let err = err.trim().lines().last().unwrap_or("").to_string();
-            death = json!({"how": if how == "timeout" { format!("no answer within {} s, killed", secs) } else { "process died".to_string() },
+            let err = err.trim().lines().find(|l| !l.trim().is_empty()).unwrap_or("").to_string();
+            death = json!({"how": if how == "timeout" { format!("no answer after {} s of CPU time / {} s, killed", cpu_limit, secs) } else { "process died".to_string() },
                            "status": status, "stderr": err});
         }
         drop(guard);
